@@ -306,9 +306,9 @@ econf_err econf_mergeFiles(econf_file **merged_file, econf_file *usr_file, econf
 
   size_t merge_length = 0;
 
-  if ((etc_file->file_entry == NULL ||
+  if ((etc_file->length == 0 ||
        !strcmp(etc_file->file_entry->group, KEY_FILE_NULL_VALUE)) &&
-      (usr_file->file_entry == NULL ||
+      (usr_file->length == 0 ||
        strcmp(usr_file->file_entry->group, KEY_FILE_NULL_VALUE))) {
     merge_length = insert_nogroup(*merged_file, &fe, etc_file);
   }
